@@ -19,7 +19,7 @@ add_struct / add_equal` it makes on `PIL_class.Spec`, i.e. exactly the `Pil.Stmt
   - `\s+` followed by something that cannot start with white space, and `[\w-]+` followed by `\s+`, are maximal runs;
   - `([^:]*)(\s+:\s+.*)?\s*\Z` (super-sequence, strand): `[^:]*` stops at the FIRST colon; without a colon the
     optional group is skipped; with one, the group must match there, which needs white space on both sides of the
-    colon, and the white space before it must be in addition to the one `=\s+` needs (`bodyOpt`);
+    colon, and the white space before it must be in addition to the one `=\s+` needs (`bodyColon`);
   - `([^:\s]*)(\s+:\s+.*)?\s*\Z` (sequence): the template is the maximal run of non-colon non-space characters; an empty
     template needs TWO white-space characters between `=` and `:` (`seqBody`);
   - `structure( \[([\w.]+)\])? ([\w-]+) = ([^:]*) : (.*)`: the colon is mandatory; the parameter alphabet `[\w.]` has no
@@ -44,8 +44,8 @@ def isWs (c : Char) : Bool :=
 /-- `[\w-]` on ASCII -/
 def isNameChar (c : Char) : Bool := c.isAlphanum || c == '_' || c == '-'
 
-/-- `[\w.]` on ASCII -/
-def isParamChar (c : Char) : Bool := c.isAlphanum || c == '_' || c == '.'
+/-- `[\w.+-]` on ASCII (the class was `[\w.]` before repair F18) -/
+def isParamChar (c : Char) : Bool := c.isAlphanum || c == '_' || c == '.' || c == '+' || c == '-'
 
 /-- universal newlines of text-mode `open` -/
 def uniNl : List Char → List Char
